@@ -111,12 +111,12 @@ theorem objF_sound_strip (ca : SOpt) (ops : List ObjOp) (cks : List SzCk) (shape
   rw [objF_doc .strip ca ops cks shape true _ hsz hsh (filter_instOK _ fs hfs)]
   rw [shapeAcceptsG_filter _ _ fs shape (by intro k hk; simpa using hk)]
   rw [filter_all _ _ (by intro k v hk; simp only [Bool.or_eq_true]; exact Or.inl hk) fs]
-  simp [ha.1]
+  simp [ha.1.1]
   simpa using ha.2
 
 /-- … and an input that validates is accepted. -/
 theorem objF_complete_strip (ca : SOpt) (ops : List ObjOp) (cks : List SzCk) (shape : Shape) (v : Json)
-    (hsz : szSimple cks = true) (hcs : (!ca.isSome || cks.isEmpty) = true) (hsh : reprShape shape = true)
+    (hsz : szSimple cks = true) (hcs : (!ca.isSome || cks.isEmpty) = true) (hca : reprCa ca = true) (hsh : reprShape shape = true)
     (hv : instOK v = true) (hd : jsValid (toDocX (.objF .strip ca ops cks shape)) v = true) :
     acceptsX (.objF .strip ca ops cks shape) v = true := by
   cases v with
@@ -129,10 +129,19 @@ theorem objF_complete_strip (ca : SOpt) (ops : List ObjOp) (cks : List SzCk) (sh
     | none =>
       have : fs.all (fun k _ => shape.keys.contains k) = true := by
         have := hd.1.2; simpa [caJS, jsValid, Mode.isLoose] using this
-      rw [filter_id _ fs this]; exact hd.2
+      rw [filter_id _ fs this]; exact ⟨by simp [catchAccepts], hd.2⟩
     | some c =>
       have : cks = [] := by simpa [SOpt.isSome] using hcs
-      subst this; simp [szOk]
+      subst this
+      refine ⟨?_, by simp [szOk]⟩
+      have h2 := hd.1.2
+      simp only [caJS] at h2
+      simp only [catchAccepts]
+      have hcg : fs.all (fun k v => shape.keys.contains k || jsValid (toJS false false false c) v)
+          = fs.all (fun k v => shape.keys.contains k || accepts c v) :=
+        all_congr_fields _ _ (fun k v _ hv' => by
+          rw [eqv c false false false v (by simpa [reprCa] using hca) hv']) fs hfs
+      rw [← hcg]; exact h2
   | _ => simp [toDocX, toJSX, jsValid_node, kwValid, typeOk] at hd
 
 /-! ### Map -/
@@ -296,7 +305,7 @@ theorem c07_x_complete (x : X) (v : Json) (h : reprXTop x = true) (hv : instOK v
     cases mode with
     | strip =>
       simp only [reprXTop, Bool.and_eq_true] at h
-      have ha := objF_complete_strip ca ops cks shape v h.1.1.1 h.1.1.2 h.2 hv hd
+      have ha := objF_complete_strip ca ops cks shape v h.1.1.1 h.1.1.2 h.1.2 h.2 hv hd
       simp [parseX, ha]
     | strict => exact c07_lazy_complete _ v (by simpa [reprXTop] using h) hv hd
     | loose => exact c07_lazy_complete _ v (by simpa [reprXTop] using h) hv hd
